@@ -626,6 +626,19 @@ func (m *Miner) Build(parent *Node, o BlockOpts) (b *Block, ok bool) {
 			nn++
 			scr = append(scr, 0x6a)
 		}
+		if o.Viol != "sigops-return" && m.R.Chance(0.5) {
+			// some of them sit in the coinbase input script (they count like any legacy sigop); cost is recomputed
+			k := 1 + m.R.Intn(40)
+			if k > nn {
+				k = nn
+			}
+			if len(cb.In[0].ScriptSig)+k <= 100 {
+				for i := 0; i < k; i++ {
+					cb.In[0].ScriptSig = append(cb.In[0].ScriptSig, 0xac)
+				}
+				nn -= k
+			}
+		}
 		for i := 0; i < nn; i++ {
 			scr = append(scr, 0xac)
 		}
@@ -660,7 +673,11 @@ func (m *Miner) Build(parent *Node, o BlockOpts) (b *Block, ok bool) {
 // C05Violations is the catalogue of header / structure / commitment violations.
 var C05Violations = []string{"high-hash", "bits-wrong", "bits-negative", "bits-zero", "bits-overflow", "time-mtp", "time-future", "version-old",
 	"cb-script-short", "cb-script-long", "bad-cb-height", "second-coinbase", "no-coinbase", "non-final-height", "non-final-time",
-	"merkle-dup", "bad-merkle", "witness-commit-wrong", "witness-missing-commit", "witness-nonce-size", "short-block", "empty-vout", "null-prevout"}
+	"merkle-dup", "bad-merkle", "witness-commit-wrong", "witness-missing-commit", "witness-nonce-size", "short-block", "empty-vout", "null-prevout",
+	"witness-commit-two", "weight-over"}
+
+// C05Boundary are mutations that keep the block VALID while sitting on a limit (MutateC05 kinds starting with "ok-").
+var C05Boundary = []string{"ok-witness-commit-two", "ok-weight-exact"}
 
 // MutateC05 turns the valid block b (child of parent) into one violating only the named rule.
 // now is the node's clock when the block will be delivered at the earliest.
@@ -894,6 +911,60 @@ func (m *Miner) MutateC05(parent *Node, b *Block, kind string, now int64) bool {
 		cb.Out = outs
 		cb.In[0].Wit = nil
 		cb.Touch()
+		regrind()
+	case "witness-commit-two", "ok-witness-commit-two":
+		// two outputs carry the commitment pattern: the LAST one is the commitment (BIP141)
+		if !segwit || !hasCommit() {
+			return false
+		}
+		cb := b.Txs[0]
+		ci := -1
+		for i := range cb.Out {
+			if len(cb.Out[i].Pk) >= 38 && bytes.Equal(cb.Out[i].Pk[:6], commitHdr) {
+				ci = i
+			}
+		}
+		bad := TxOut{0, append([]byte{}, cb.Out[ci].Pk...)}
+		bad.Pk[6+m.R.Intn(32)] ^= 0x10
+		if kind == "witness-commit-two" {
+			cb.Out = append(cb.Out, bad) // correct one first, wrong one last: invalid
+		} else {
+			outs := append([]TxOut{}, cb.Out[:ci]...)
+			outs = append(outs, bad)
+			cb.Out = append(outs, cb.Out[ci:]...) // wrong one first, correct one last: valid
+		}
+		cb.Touch()
+		regrind()
+	case "weight-over", "ok-weight-exact":
+		// pad the coinbase with an unspendable output until the block weight is exactly at / just above 4,000,000
+		cb := b.Txs[0]
+		cb.Out = append(cb.Out, TxOut{0, append([]byte{0x6a}, make([]byte, 70000)...)})
+		cb.Touch()
+		w0 := b.Weight()
+		r := (4000000 - w0) % 4
+		if r < 0 {
+			return false
+		}
+		target := 4000000 - r // the largest reachable weight that is still allowed
+		if kind == "weight-over" {
+			target += 4
+			if m.R.Chance(0.3) {
+				target += 4 * m.R.Intn(3)
+			}
+		} else if m.R.Chance(0.3) {
+			target -= 4 * m.R.Intn(3)
+		}
+		pad := (target - w0) / 4
+		if pad < 0 {
+			return false
+		}
+		last := &cb.Out[len(cb.Out)-1]
+		last.Pk = append(last.Pk, make([]byte, pad)...)
+		cb.Touch()
+		if b.Weight() != target {
+			return false
+		}
+		recommit()
 		regrind()
 	case "witness-nonce-size":
 		if !segwit || !hasCommit() {
